@@ -27,7 +27,7 @@ Core Lean only.
 namespace Gate.C28
 
 /-- The client's `PlayerInfo` (the fields the property names, plus the hat flag). -/
-structure CEntry where
+@[ext] structure CEntry where
   uid      : UUID
   name     : String
   props    : String
